@@ -50,7 +50,26 @@ type SVGImage struct {
 
 	// needed to draw text
 	cursorPosition, cursorDPosition point
+
+	// definitions (clip paths, masks, markers) currently being drawn,
+	// to ignore cyclic references instead of following them forever
+	activeRefs map[string]bool
 }
+
+// enterRef returns false if the definition is already being drawn (cyclic reference)
+func (svg *SVGImage) enterRef(kind, id string) bool {
+	key := kind + "#" + id
+	if svg.activeRefs[key] {
+		return false
+	}
+	if svg.activeRefs == nil {
+		svg.activeRefs = make(map[string]bool)
+	}
+	svg.activeRefs[key] = true
+	return true
+}
+
+func (svg *SVGImage) leaveRef(kind, id string) { delete(svg.activeRefs, kind+"#"+id) }
 
 // DisplayedSize returns the value of the "width" and "height" attributes
 // of the <svg> root element, which discribe the displayed size of the rectangular viewport.
@@ -119,8 +138,9 @@ func (svg *SVGImage) drawNode(dst backend.Canvas, node *svgNode, dims drawingDim
 		}
 
 		// clip
-		if cp, has := svg.definitions.clipPaths[node.clipPathID]; has {
+		if cp, has := svg.definitions.clipPaths[node.clipPathID]; has && svg.enterRef("clipPath", node.clipPathID) {
 			svg.applyClipPath(dst, cp, node, dims)
+			svg.leaveRef("clipPath", node.clipPathID)
 		}
 
 		// Handle text anchor
@@ -191,8 +211,9 @@ func (svg *SVGImage) drawNode(dst backend.Canvas, node *svgNode, dims drawingDim
 		}
 
 		// apply mask
-		if ma, has := svg.definitions.masks[node.maskID]; has {
+		if ma, has := svg.definitions.masks[node.maskID]; has && svg.enterRef("mask", node.maskID) {
 			svg.applyMask(dst, ma, node, dims)
+			svg.leaveRef("mask", node.maskID)
 		}
 
 		// do the actual painting :
@@ -252,6 +273,10 @@ func (svg *SVGImage) drawMarkers(dst backend.Canvas, vertices []vertex, node *sv
 
 		marker := markers[position]
 		if marker == nil {
+			continue
+		}
+		markerKey := fmt.Sprintf("%p", marker)
+		if !svg.enterRef("marker", markerKey) { // a marker drawn inside itself is ignored
 			continue
 		}
 
@@ -321,7 +346,7 @@ func (svg *SVGImage) drawMarkers(dst backend.Canvas, vertices []vertex, node *sv
 				svg.drawNode(dst, child, dims, paint)
 			})
 		}
-
+		svg.leaveRef("marker", markerKey)
 	}
 }
 
